@@ -20,8 +20,14 @@ func c07SSO(r *core.Run, idx int, rng *rand.Rand) {
 	// percent-encoding style and KeyInfo / base64 layout a conformant SP may choose
 	c.Pct = []string{spsim.PctGo, spsim.PctGo, spsim.PctLower, spsim.Pct20, spsim.PctAll}[rng.Intn(5)]
 	c.XS.DropKey = rng.Intn(3) == 0
+	// xs:base64Binary may be broken anywhere by blanks, tabs, CR and LF
+	seps := []string{"\n", "\n", "\r\n", "\n        ", "\n\t\t", " "}
 	if !c.XS.DropKey {
 		c.XS.WrapCert = []int{0, 0, 64, 76}[rng.Intn(4)]
+		c.XS.WrapSep = seps[rng.Intn(len(seps))]
+	}
+	if c.SPD.CertWrap > 0 {
+		c.SPD.CertSep = seps[rng.Intn(len(seps))]
 	}
 	c.XS.KeepAtEnd = false
 	class := []string{"authn", c.Binding}
@@ -34,6 +40,9 @@ func c07SSO(r *core.Run, idx int, rng *rand.Rand) {
 				class = append(class, "no_keyinfo")
 			} else if c.XS.WrapCert > 0 {
 				class = append(class, "wrapped_keyinfo_cert")
+				if strings.ContainsAny(c.XS.WrapSep, " \t") {
+					class = append(class, "indented")
+				}
 			}
 		}
 	} else {
@@ -226,16 +235,20 @@ func init() {
 		TimeoutQuick: 5 * time.Minute, TimeoutThorough: 30 * time.Minute,
 		Build: func(c *Ctx) []core.Workload {
 			r := c.Run
-			r.Rule = "requests are drawn from a generator of conformant messages (serialisation style x binding x signing x percent-encoding style x KeyInfo layout x SP/IdP signing requirements), each against a fresh provider; the monitor requires acceptance (AuthnRequest: persisted + 303; LogoutRequest / AttributeQuery: status Success). Distinct = (class labels, serialisation style, configuration); all are non-trivial."
+			r.Rule = "requests are drawn from a generator of conformant messages (serialisation style x binding x signing x percent-encoding style x KeyInfo layout x SP/IdP signing requirements), each against a fresh provider; the monitor requires acceptance (AuthnRequest: persisted + 303; LogoutRequest / AttributeQuery: status Success). A further workload drives ONE provider with a host-derived issuer through sequences of conformant requests under several hosts (each addressed to the location advertised for its own host). Distinct = (class labels, serialisation style, configuration); all are non-trivial."
 			r.Assume("RelayState is only sent when non-empty (an empty RelayState parameter is not treated as conformant)")
 			r.Assume("timestamps use the UTC 'Z' form with 0-9 fractional digits, validity windows have >= 60 s margin")
 			r.Require("authn_accepted", 100)
 			r.Require("logout_success", 50)
 			r.Require("query_success", 50)
+			r.Require("multi_host_accepted", 500)
 			return []core.Workload{
 				{Name: "conformant_authn", N: c.Pick(700, 8000), Fn: c07SSO},
 				{Name: "conformant_logout", N: c.Pick(300, 3000), Fn: c07Logout},
 				{Name: "conformant_attribute_query", N: c.Pick(300, 3000), Fn: c07Query},
+				{Name: "multi_host_sequences", N: c.Pick(150, 1500), Fn: func(r *core.Run, idx int, rng *rand.Rand) {
+					multiHostSequence(r, "multi_host_sequences", idx, rng, false)
+				}},
 			}
 		},
 	})
